@@ -19,6 +19,7 @@ RULE = (
     "inferred} x center_coordinates x representation {1-D float, mixed memory layouts, integer-dtype easting}; variance_to_weights on every vector of length 1..4 over {0, 1e-16, 1e-15, 1e-14, 0.2, 1, 2, NaN} "
     "as array / tuple of arrays / 2-D / read-only, tol default and 1e-3. Non-trivial: two blocks with different positive variance, "
     "or a variance vector with two distinct values above the tolerance."
+    " Added axes: four block definitions (spacing, shape, non-dividing spacing with either adjustment), parameter routes, large base level, mixed layouts, integer easting, permuted-index Series, weights scaled by 1e-9 / 1e9, uniform weights, 'no weights' as a tuple of None, numpy-array parameters."
 )
 ASSUMPTIONS = ["the unweighted block variance may be the population (ddof=0) or the sample (ddof=1) variance, the same choice for all blocks "
                "(the statement does not fix it; pandas >= 3 gives ddof=0, older pandas ddof=1)",
